@@ -26,7 +26,7 @@ CONSTANTS Tables,     \* sequence of option tables; table = sequence of option r
           Argvs(_),   \* the argument vectors Init chooses from, per table (ArgvsBounded, or a sampled set of longer ones)
           Emit(_)     \* observation hook, called once per finished behaviour
 
-VARIABLES tb,       \* index of the option table in Tables
+VARIABLES tb,       \* index of the option table in TBL
           st,       \* parser settings, subset of {"PRE", "REM"}
           argv,     \* the words after the program name (token indexes); never changes
           phase,    \* "pre" | "main" | "compact" | "done"
@@ -42,6 +42,11 @@ VARIABLES tb,       \* index of the option table in Tables
 
 vars == <<tb, st, argv, phase, i, l, flags, tv, mark, badLo, badHi, badOpen, strict, re, snap, cr, out>>
 
+\* TLC evaluates a constant that the cfg substitutes (`TokText <- ...`) again at every use; a constant-level definition
+\* is evaluated once.  The module therefore reads the alphabet and the tables through these two names only.
+TT  == TokText
+TBL == Tables
+
 DASH == 45
 EQ   == 61
 SP   == 32
@@ -50,10 +55,10 @@ SQ   == 39
 
 ---------------------------------------------------------------------------------------------
 (* texts *)
-Tb       == Tables[tb]
+Tb       == TBL[tb]
 NOpt     == Len(Tb)
 NArgs    == Len(argv)
-Txt(k)   == TokText[argv[k]]
+Txt(k)   == TT[argv[k]]
 W        == Txt(i)
 Rest(w, p) == SubSeq(w, p, Len(w))                       \* characters p.. of w
 StartsDash(w) == Len(w) >= 1 /\ w[1] = DASH
@@ -116,11 +121,13 @@ SplitWords(t) ==
 WordFacts(w) == [dash |-> StartsDash(w), long |-> IsLongWord(w), short |-> IsShortWord(w), lone |-> IsLone(w),
                  eq |-> HasEq(w), val |-> IF HasEq(w) THEN LongVal(w) ELSE <<>>,
                  bool |-> IsBoolWord(w), true |-> IsTrueWord(w), len |-> Len(w)]
-Fact == [t \in 1 .. Len(TokText) |-> WordFacts(TokText[t])]
-LongOptOf == [tn \in 1 .. Len(Tables) |-> [t \in 1 .. Len(TokText) |->
-                 IF IsLongWord(TokText[t]) THEN FindLongIn(Tables[tn], LongName(TokText[t])) ELSE 0]]
-ShortOptOf == [tn \in 1 .. Len(Tables) |-> [t \in 1 .. Len(TokText) |->
-                 [p \in 1 .. Len(TokText[t]) |-> FindShortIn(Tables[tn], TokText[t][p])]]]
+Fact == [t \in 1 .. Len(TT) |-> LET w == TT[t] IN WordFacts(w)]
+LongOptOf == [tn \in 1 .. Len(TBL) |-> [t \in 1 .. Len(TT) |->
+                 LET w == TT[t] IN IF IsLongWord(w) THEN FindLongIn(TBL[tn], LongName(w)) ELSE 0]]
+\* only short option words are ever looked up letter by letter
+ShortOptOf == [tn \in 1 .. Len(TBL) |-> [t \in 1 .. Len(TT) |->
+                 LET w == TT[t] T == TBL[tn] IN
+                 IF IsShortWord(w) THEN [p \in 1 .. Len(w) |-> FindShortIn(T, w[p])] ELSE <<>>]]
 FW == Fact[argv[i]]            \* facts about the word under the cursor
 FN == Fact[argv[i + 1]]        \* ... and about the next word
 
@@ -391,13 +398,13 @@ Next == ScanStep \/ OpPrePassEnd \/ OpMainPassEnd \/ OpCompactBegin \/ OpCompact
 
 ArgvsOver(T) == UNION { [1 .. n -> T] : n \in 0 .. MaxArgs }
 ArgvsBounded(t) == ArgvsOver(TokSets[t])                 \* every vector of at most MaxArgs words over the table's alphabet
-Init == /\ tb \in 1 .. Len(Tables)
+Init == /\ tb \in 1 .. Len(TBL)
         /\ st \in SUBSET {"PRE", "REM"}
         /\ argv \in Argvs(tb)
         /\ phase = (IF "PRE" \in st THEN "pre" ELSE "main")
         /\ i = 1 /\ l = 0
         /\ flags = Flags0[tb]
-        /\ tv = [j \in 1 .. Len(Tables[tb]) |-> TV(IF Tables[tb][j].kind = "int" THEN Int0 ELSE 0, FALSE, <<>>, <<>>)]
+        /\ tv = [j \in 1 .. Len(TBL[tb]) |-> TV(IF TBL[tb][j].kind = "int" THEN Int0 ELSE 0, FALSE, <<>>, <<>>)]
         /\ mark = [k \in 1 .. Len(argv) |-> "keep"]
         /\ badLo = 0 /\ badHi = 0 /\ badOpen = FALSE /\ strict = TRUE /\ re = FALSE
         /\ snap = <<>> /\ cr = 0 /\ out = <<>>
@@ -450,15 +457,20 @@ IntFromLine == \A j \in 1 .. NOpt : Tb[j].kind = "int" =>
 \* NonOptionsUntouchedInOrder: a plain word is never "gone" unless it is the value of the option word right before it
 \* or lies behind an argument-list option; words before the cursor that are plain and not preceded by an option word
 \* are kept; the compacted vector lists positions in increasing order
-IsArgsOptWord(w) == \/ IsLongWord(w) /\ ~HasEq(w) /\ FindLong(LongName(w)) # 0 /\ Tb[FindLong(LongName(w))].kind = "args"
-                    \/ IsShortWord(w) /\ \E p \in 2 .. Len(w) : FindShort(w[p]) # 0 /\ Tb[FindShort(w[p])].kind = "args"
+IsArgsOptWordIn(T, w) ==
+    \/ IsLongWord(w) /\ ~HasEq(w) /\ FindLongIn(T, LongName(w)) # 0 /\ T[FindLongIn(T, LongName(w))].kind = "args"
+    \/ IsShortWord(w) /\ \E p \in 2 .. Len(w) : FindShortIn(T, w[p]) # 0 /\ T[FindShortIn(T, w[p])].kind = "args"
+ArgsWordOf == [tn \in 1 .. Len(TBL) |-> [t \in 1 .. Len(TT) |->
+                  LET w == TT[t] T == TBL[tn] IN IsArgsOptWordIn(T, w)]]      \* tabulated
+IsArgsAt(q) == ArgsWordOf[tb][argv[q]]
+\* position of the first argument-list option word on the line (NArgs + 1 if none)
+FirstArgsWord == CHOOSE q \in 1 .. (NArgs + 1) : (q = NArgs + 1 \/ IsArgsAt(q)) /\ \A r \in 1 .. (q - 1) : ~IsArgsAt(r)
+Dash(k) == Fact[argv[k]].dash
 NonOptionsUntouchedInOrder ==
-    /\ \A k \in 1 .. NArgs : (mark[k] # "keep" /\ ~StartsDash(Txt(k))) =>
-          \/ k > 1 /\ StartsDash(Txt(k - 1))
-          \/ \E q \in 1 .. (k - 1) : IsArgsOptWord(Txt(q))
-    /\ \A k \in 1 .. NArgs : (phase \in {"pre", "main"} /\ k < i /\ ~StartsDash(Txt(k))
-                              /\ (k = 1 \/ ~StartsDash(Txt(k - 1)))
-                              /\ ~\E q \in 1 .. (k - 1) : IsArgsOptWord(Txt(q))) => mark[k] = "keep"
+    LET fa == FirstArgsWord IN
+    /\ \A k \in 1 .. NArgs : (mark[k] # "keep" /\ ~Dash(k)) => ((k > 1 /\ Dash(k - 1)) \/ fa < k)
+    /\ \A k \in 1 .. NArgs : (phase \in {"pre", "main"} /\ k < i /\ ~Dash(k) /\ (k = 1 \/ ~Dash(k - 1)) /\ ~(fa < k))
+                                 => mark[k] = "keep"
     /\ \A q \in 1 .. (Len(out) - 1) : out[q] < out[q + 1]
 
 \* ArgvCompacted: the mechanism (read/write cursors) yields exactly the reference filter: program name, then every word
